@@ -878,3 +878,434 @@ async fn run_scenario(sc: &Scenario, sink: &Sink) {
     let port;
     if sc.api == "cabi" {
         port = free_port(ip);
+        let scj = serde_json::to_string(&ScenarioLite::from(sc)).unwrap();
+        let listen = sc.listen.clone();
+        let created = off_runtime(move || {
+            let sc: ScenarioLite = serde_json::from_str(&scj).unwrap();
+            cabi::create(&sc, &listen, port).map(|(s, rt)| (s as usize, rt as usize))
+        })
+        .await;
+        match created {
+            Ok((s, rt)) => server = ServerH::Cabi(s as *mut rodbus_ffi::Server, rt as *mut rodbus_ffi::Runtime),
+            Err(e) => {
+                sink.emit(json!({"e":"create_failed","why":e}));
+                rodbus::verif::install_sink(None);
+                return;
+            }
+        }
+    } else {
+        let filter = match make_filter(&sc.filter) {
+            Ok(f) => f,
+            Err(e) => {
+                sink.emit(json!({"e":"create_failed","why":e}));
+                rodbus::verif::install_sink(None);
+                return;
+            }
+        };
+        let mut map = ServerHandlerMap::new();
+        for u in &sc.units {
+            map.add(UnitId::new(*u), DbHandler::new(*u, sc.seed, &holes, sink.clone()).wrap());
+        }
+        let listener = tokio::net::TcpListener::bind(SocketAddr::new(ip, 0)).await.unwrap();
+        port = listener.local_addr().unwrap().port();
+        let (handle, task) = match sc.variant.as_str() {
+            "tcp" => create_tcp_server_task(sc.max_sessions, listener, map, filter, DecodeLevel::nothing()),
+            v => {
+                let mode = if sc.mode == "self" { CertificateMode::SelfSigned } else { CertificateMode::AuthorityBased };
+                let min = if sc.min_tls == "1.3" { MinTlsVersion::V1_3 } else { MinTlsVersion::V1_2 };
+                let cfg = match TlsServerConfig::new(
+                    std::path::Path::new(&pem_path(&sc.peer_cert, "cert")),
+                    std::path::Path::new(&pem_path(&sc.server_cert, "cert")),
+                    std::path::Path::new(&pem_path(&sc.server_cert, "key")),
+                    None,
+                    min,
+                    mode,
+                ) {
+                    Ok(c) => c,
+                    Err(e) => {
+                        sink.emit(json!({"e":"create_failed","why":format!("{e}")}));
+                        rodbus::verif::install_sink(None);
+                        return;
+                    }
+                };
+                if v == "tls" {
+                    create_tls_server_task(sc.max_sessions, listener, map, cfg, filter, DecodeLevel::nothing())
+                } else {
+                    let auth = PolicyAuth::create(
+                        AuthCfg { policy: sc.auth.clone().unwrap_or_else(|| "allow".into()), seed: 1, role: String::new() },
+                        sink.clone(),
+                    );
+                    create_tls_server_task_with_authz(sc.max_sessions, listener, map, auth, cfg, filter, DecodeLevel::nothing())
+                }
+            }
+        };
+        tokio::spawn(task.run());
+        server = ServerH::Rust(Some(handle));
+    }
+    let target = SocketAddr::new(if ip.is_unspecified() { "127.0.0.1".parse().unwrap() } else { ip }, port);
+    sink.emit(json!({"e":"listening"}));
+
+    let mut peers: HashMap<usize, Peer> = HashMap::new();
+    let mut flooders: std::collections::HashSet<usize> = std::collections::HashSet::new();
+    let mut ended = false;
+
+    for st in &sc.steps {
+        match st.op.as_str() {
+            "connect" => {
+                let src: IpAddr = st.src.parse().unwrap();
+                sink.emit(json!({"e":"connecting","c":st.c,"src":octets(&src),"silent":st.silent}));
+                let sock = if src.is_ipv4() { TcpSocket::new_v4() } else { TcpSocket::new_v6() }.unwrap();
+                let _ = sock.bind(SocketAddr::new(src, 0));
+                let tgt = if src.is_ipv6() && target.is_ipv4() { target } else { target };
+                let res = tokio::time::timeout(Duration::from_secs(2), sock.connect(tgt)).await;
+                let stream = match res {
+                    Ok(Ok(s)) => s,
+                    _ => {
+                        sink.emit(json!({"e":"connected","c":st.c,"result":"refused"}));
+                        continue;
+                    }
+                };
+                let _ = stream.set_nodelay(true);
+                if ended {
+                    // a listener that still accepts after the server ended
+                    sink.emit(json!({"e":"connected","c":st.c,"result":"ok"}));
+                    let mut c = Conn::Plain(stream);
+                    let (o, n) = peer_view(&mut c, 500).await;
+                    sink.emit(json!({"e":"peer_view","c":st.c,"outcome":o,"n":n}));
+                    continue;
+                }
+                let f = wait_hook(&mut hrx, |e| matches!(e, Event::Filter { .. }), 3000).await;
+                let matched = match f {
+                    Some(Event::Filter { matches, .. }) => matches,
+                    _ => {
+                        sink.emit(json!({"e":"noaccept","c":st.c}));
+                        continue;
+                    }
+                };
+                if !matched {
+                    sink.emit(json!({"e":"connected","c":st.c,"result":"ok"}));
+                    let mut c = Conn::Plain(stream);
+                    let (o, n) = peer_view(&mut c, 2000).await;
+                    sink.emit(json!({"e":"peer_view","c":st.c,"outcome":o,"n":n}));
+                    continue;
+                }
+                let t = wait_hook(&mut hrx, |e| matches!(e, Event::Track { .. }), 3000).await;
+                let (id, evicted) = match t {
+                    Some(Event::Track { id, evicted, .. }) => (id, evicted),
+                    _ => {
+                        sink.emit(json!({"e":"notrack","c":st.c}));
+                        continue;
+                    }
+                };
+                sink.emit(json!({"e":"connected","c":st.c,"result":"ok"}));
+                let conn = if sc.variant != "tcp" && !st.silent {
+                    let peer = st.tls.clone().unwrap_or(TlsPeer { cert: Some("client_operator".into()), versions: vec!["1.2".into(), "1.3".into()] });
+                    match client_config(&peer) {
+                        Err(e) => {
+                            sink.emit(json!({"e":"tls","c":st.c,"outcome":"config_error","err":e}));
+                            Conn::Plain(stream)
+                        }
+                        Ok(cfg) => {
+                            let connector = tokio_rustls::TlsConnector::from(Arc::new(cfg));
+                            let name = rustls::pki_types::ServerName::try_from("test.com").unwrap();
+                            match tokio::time::timeout(Duration::from_secs(3), connector.connect(name, stream)).await {
+                                Ok(Ok(mut s)) => {
+                                    // TLS 1.3: a refused client certificate only shows on the first read
+                                    let v = match s.get_ref().1.protocol_version() {
+                                        Some(rustls::ProtocolVersion::TLSv1_2) => "1.2",
+                                        Some(rustls::ProtocolVersion::TLSv1_3) => "1.3",
+                                        _ => "?",
+                                    };
+                                    let mut probe = [0u8; 1];
+                                    let early = tokio::time::timeout(Duration::from_millis(300), s.read(&mut probe)).await;
+                                    match early {
+                                        Err(_) => {
+                                            sink.emit(json!({"e":"tls","c":st.c,"outcome":"established","version":v,"cert":peer.cert.clone().unwrap_or_else(|| "none".into()),"versions":peer.versions}));
+                                            Conn::Tls(Box::new(s))
+                                        }
+                                        Ok(r) => {
+                                            sink.emit(json!({"e":"tls","c":st.c,"outcome":"rejected","version":v,"cert":peer.cert.clone().unwrap_or_else(|| "none".into()),"versions":peer.versions,"err":format!("{r:?}")}));
+                                            drop(s);
+                                            let _ = wait_hook(&mut hrx, |e| matches!(e, Event::Untrack { id: i, .. } if *i == id), 2000).await;
+                                            if let Some(ev) = evicted {
+                                                view_evicted(&mut peers, ev, sink).await;
+                                            }
+                                            continue;
+                                        }
+                                    }
+                                }
+                                Ok(Err(e)) => {
+                                    sink.emit(json!({"e":"tls","c":st.c,"outcome":"rejected","version":"","cert":peer.cert.clone().unwrap_or_else(|| "none".into()),"versions":peer.versions,"err":e.to_string()}));
+                                    peers.remove(&st.c);
+                                    // the server side ends its session
+                                    let _ = wait_hook(&mut hrx, |e| matches!(e, Event::Untrack { id: i, .. } if *i == id), 2000).await;
+                                    if let Some(ev) = evicted {
+                                        view_evicted(&mut peers, ev, sink).await;
+                                    }
+                                    continue;
+                                }
+                                Err(_) => {
+                                    sink.emit(json!({"e":"tls","c":st.c,"outcome":"timeout","version":"","cert":peer.cert.clone().unwrap_or_else(|| "none".into()),"versions":peer.versions}));
+                                    continue;
+                                }
+                            }
+                        }
+                    }
+                } else {
+                    Conn::Plain(stream)
+                };
+                peers.insert(st.c, Peer { conn, id: Some(id), tx: (st.c as u16) << 8 });
+                if let Some(ev) = evicted {
+                    view_evicted(&mut peers, ev, sink).await;
+                }
+            }
+            "req" => {
+                let p = match peers.get_mut(&st.c) {
+                    Some(p) => p,
+                    None => continue,
+                };
+                p.tx = p.tx.wrapping_add(1);
+                let len = (st.pdu.len() + 1) as u16;
+                let mut f = vec![(p.tx >> 8) as u8, p.tx as u8, 0, 0, (len >> 8) as u8, len as u8, st.unit];
+                f.extend_from_slice(&st.pdu);
+                sink.emit(json!({"e":"req","c":st.c,"bytes":bytes_json(&f)}));
+                if p.conn.write_all(&f).await.is_err() {
+                    sink.emit(json!({"e":"rsp","c":st.c,"outcome":"eof","bytes":[]}));
+                    continue;
+                }
+                match read_frame(&mut p.conn, 2500).await {
+                    Ok(b) => sink.emit(json!({"e":"rsp","c":st.c,"outcome":"reply","bytes":bytes_json(&b)})),
+                    Err(why) => sink.emit(json!({"e":"rsp","c":st.c,"outcome":why,"bytes":[]})),
+                }
+            }
+            "req_start" => {
+                let p = match peers.get_mut(&st.c) {
+                    Some(p) => p,
+                    None => continue,
+                };
+                p.tx = p.tx.wrapping_add(1);
+                let len = (st.pdu.len() + 1) as u16;
+                let mut f = vec![(p.tx >> 8) as u8, p.tx as u8, 0, 0, (len >> 8) as u8, len as u8, st.unit];
+                f.extend_from_slice(&st.pdu);
+                sink.emit(json!({"e":"req","c":st.c,"bytes":bytes_json(&f)}));
+                let _ = p.conn.write_all(&f).await;
+                tokio::time::sleep(Duration::from_millis(50)).await;
+            }
+            "rsp_wait" => {
+                let p = match peers.get_mut(&st.c) {
+                    Some(p) => p,
+                    None => continue,
+                };
+                match read_frame(&mut p.conn, 4000).await {
+                    Ok(b) => sink.emit(json!({"e":"rsp","c":st.c,"outcome":"reply","bytes":bytes_json(&b)})),
+                    Err(why) => sink.emit(json!({"e":"rsp","c":st.c,"outcome":why,"bytes":[]})),
+                }
+            }
+            "close" => {
+                if let Some(p) = peers.remove(&st.c) {
+                    sink.emit(json!({"e":"close","c":st.c}));
+                    let id = p.id;
+                    drop(p);
+                    if let Some(id) = id {
+                        if wait_hook(&mut hrx, |e| matches!(e, Event::Untrack { id: i, .. } if *i == id), 3000).await.is_none() {
+                            sink.emit(json!({"e":"nountrack","c":st.c}));
+                        }
+                    }
+                }
+            }
+            "flood" => {
+                // requests with large replies that the peer never reads: the session ends up blocked in its write
+                if let Some(p) = peers.get_mut(&st.c) {
+                    sink.emit(json!({"e":"flood","c":st.c}));
+                    let pdu = [3u8, 0, 0, 0, 125];
+                    let mut sent = 0u64;
+                    let mut batch = Vec::new();
+                    for i in 0..400u16 {
+                        let mut f = vec![(i >> 8) as u8, i as u8, 0, 0, 0, 6, st.unit];
+                        f.extend_from_slice(&pdu);
+                        batch.extend_from_slice(&f);
+                    }
+                    loop {
+                        match tokio::time::timeout(Duration::from_millis(300), p.conn.write_all(&batch)).await {
+                            Ok(Ok(())) => sent += 400,
+                            _ => break,
+                        }
+                        if sent > 400_000 {
+                            break;
+                        }
+                    }
+                    sink.emit(json!({"e":"flood_done","c":st.c,"requests_written":sent}));
+                    flooders.insert(st.c);
+                }
+            }
+            "close_many" => {
+                // many peers go away in the same instant
+                let mut ids = Vec::new();
+                let mut gone = Vec::new();
+                for c in &st.cs {
+                    if let Some(p) = peers.remove(c) {
+                        sink.emit(json!({"e":"close","c":c}));
+                        if let Some(id) = p.id {
+                            ids.push((*c, id));
+                        }
+                        gone.push(p);
+                    }
+                }
+                drop(gone);
+                let deadline = tokio::time::Instant::now() + Duration::from_millis(3000);
+                let mut pending: std::collections::HashSet<u128> = ids.iter().map(|x| x.1).collect();
+                while !pending.is_empty() {
+                    match tokio::time::timeout_at(deadline, hrx.recv()).await {
+                        Ok(Some(Event::Untrack { id, .. })) => {
+                            pending.remove(&id);
+                        }
+                        Ok(Some(_)) => {}
+                        _ => break,
+                    }
+                }
+                for (c, id) in ids {
+                    if pending.contains(&id) {
+                        sink.emit(json!({"e":"nountrack","c":c}));
+                    }
+                }
+            }
+            "send" => {
+                if let Some(p) = peers.get_mut(&st.c) {
+                    sink.emit(json!({"e":"send","c":st.c,"bytes":bytes_json(&st.bytes)}));
+                    let _ = p.conn.write_all(&st.bytes).await;
+                    let id = p.id;
+                    if let Some(id) = id {
+                        if wait_hook(&mut hrx, |e| matches!(e, Event::Untrack { id: i, .. } if *i == id), 3000).await.is_none() {
+                            sink.emit(json!({"e":"nountrack","c":st.c}));
+                        }
+                    }
+                    let (o, n) = peer_view(&mut p.conn, 2000).await;
+                    sink.emit(json!({"e":"peer_view","c":st.c,"outcome":o,"n":n}));
+                    peers.remove(&st.c);
+                }
+            }
+            "partial" => {
+                // bytes that leave the session waiting for more: no event expected
+                if let Some(p) = peers.get_mut(&st.c) {
+                    sink.emit(json!({"e":"partial","c":st.c,"bytes":bytes_json(&st.bytes)}));
+                    let _ = p.conn.write_all(&st.bytes).await;
+                }
+            }
+            "decode" => {
+                sink.emit(json!({"e":"cmd","kind":"decode"}));
+                match &mut server {
+                    ServerH::Rust(Some(h)) => {
+                        let _ = tokio::time::timeout(Duration::from_secs(2), h.set_decode_level(decode_level(&st.level))).await;
+                    }
+                    ServerH::Cabi(s, _) => {
+                        let (s, lv) = (*s as usize, st.level.clone());
+                        let _ = off_runtime(move || cabi::set_decode(s as *mut rodbus_ffi::Server, &lv)).await;
+                    }
+                    _ => {}
+                }
+            }
+            "shutdown" | "drop" => {
+                if ended {
+                    continue;
+                }
+                sink.emit(json!({"e":"cmd","kind":st.op}));
+                match std::mem::replace(&mut server, ServerH::None) {
+                    ServerH::Rust(Some(h)) => {
+                        if st.op == "shutdown" {
+                            let _ = tokio::time::timeout(Duration::from_secs(2), h.shutdown()).await;
+                            server = ServerH::Rust(Some(h));
+                        } else {
+                            drop(h);
+                        }
+                    }
+                    ServerH::Cabi(s, rt) => {
+                        let _ = off_runtime({
+                            let (s, rt) = (s as usize, rt as usize);
+                            move || cabi::destroy(s as *mut rodbus_ffi::Server, rt as *mut rodbus_ffi::Runtime)
+                        })
+                        .await;
+                    }
+                    other => server = other,
+                }
+                if wait_hook(&mut hrx, |e| matches!(e, Event::ServerEnd), 3000).await.is_none() {
+                    sink.emit(json!({"e":"no_server_end"}));
+                }
+                ended = true;
+                let mut ids: Vec<usize> = peers.keys().copied().collect();
+                ids.sort();
+                // peers that never read (flooders) are looked at last: reading their backlog would unblock their session
+                ids.sort_by_key(|c| flooders.contains(c));
+                for c in ids {
+                    let p = peers.get_mut(&c).unwrap();
+                    let (o, n) = peer_view(&mut p.conn, 2000).await;
+                    sink.emit(json!({"e":"peer_view","c":c,"outcome":o,"n":n}));
+                }
+                peers.clear();
+            }
+            _ => {}
+        }
+    }
+    // teardown
+    if !ended {
+        sink.emit(json!({"e":"cmd","kind":"teardown"}));
+        match std::mem::replace(&mut server, ServerH::None) {
+            ServerH::Rust(h) => drop(h),
+            ServerH::Cabi(s, rt) => {
+                let _ = off_runtime({
+                    let (s, rt) = (s as usize, rt as usize);
+                    move || cabi::destroy(s as *mut rodbus_ffi::Server, rt as *mut rodbus_ffi::Runtime)
+                })
+                .await;
+            }
+            ServerH::None => {}
+        }
+        let _ = wait_hook(&mut hrx, |e| matches!(e, Event::ServerEnd), 3000).await;
+    }
+    peers.clear();
+    tokio::time::sleep(Duration::from_millis(30)).await;
+    rodbus::verif::install_sink(None);
+    sink.emit(json!({"e":"scenario_end"}));
+}
+
+async fn view_evicted(peers: &mut HashMap<usize, Peer>, evicted: u128, sink: &Sink) {
+    let c = peers.iter().find(|(_, p)| p.id == Some(evicted)).map(|(c, _)| *c);
+    if let Some(c) = c {
+        let p = peers.get_mut(&c).unwrap();
+        let (o, n) = peer_view(&mut p.conn, 2000).await;
+        sink.emit(json!({"e":"peer_view","c":c,"outcome":o,"n":n}));
+        if o != "open" {
+            peers.remove(&c);
+        }
+    }
+}
+
+fn main() {
+    let args: Vec<String> = std::env::args().collect();
+    let scripts = std::fs::File::open(&args[1]).expect("scripts");
+    let out = std::fs::File::create(&args[2]).expect("trace");
+    let sink = Sink::new(Box::new(std::io::BufWriter::new(out)));
+    install_panic_hook();
+    install_tracing();
+    let wd = Watchdog::start(sink.clone(), 120);
+    let rt = tokio::runtime::Builder::new_multi_thread()
+        .worker_threads(3)
+        .enable_all()
+        .build()
+        .unwrap();
+    for line in std::io::BufReader::new(scripts).lines() {
+        let line = line.unwrap();
+        if line.trim().is_empty() {
+            continue;
+        }
+        let sc: Scenario = serde_json::from_str(&line).expect("scenario json");
+        wd.scenario(sc.id);
+        rt.block_on(run_scenario(&sc, &sink));
+        if let Some(p) = take_panic() {
+            sink.emit(json!({"e":"panic","msg":p}));
+        }
+    }
+    wd.done();
+    sink.flush();
+    eprintln!("e4_server: {} trace lines", sink.lines());
+    let _: Option<Value> = None;
+}
